@@ -4,9 +4,19 @@
   tree), for ANY numbers of Serve / Shutdown calls and datagrams and for EVERY schedule
   (`run` skips labels that are not enabled, so every `List Label` is a schedule).
   Data-race freedom and the Go scheduler below the granularity of the labels are outside the model.
+
+  Second audit.  The label `serveRecv` of that machine is three code steps (`ReadFrom` returns, `activeAdd`,
+  `go`).  The section "The read loop at the granularity of the code" below states the invariants for the
+  machine RV.Model.Server2 in which they are separate steps (`serveRead`, `serveSpawn`; theorems `fine_…`,
+  `spawn_after_shutdown_is_counted`, two negative controls) and the refinement between the two machines
+  (`coarse_is_fine_with_adjacent_pairs`).  The section "Progress does not depend on the environment" has
+  `shutdown_unblocks_every_serve` and the progress theorems with the environment's `serveReadFail` removed
+  from the drain labels.
 -/
 import RV.Model.Server
+import RV.Model.Server2
 import RV.Proofs.Server
+import RV.Proofs.Server2
 namespace RV.C07
 open RV RV.Server
 
@@ -100,7 +110,18 @@ theorem listeners_count (H : Hash) (cfg : Cfg) (hv : cfg.variant = .fixed) (conn
 /-- A read error that does not come from Shutdown's Close: once Shutdown has been requested the Serve
     call returns ErrServerShutdown whatever the error is; before that, a non-temporary network error
     ends this Serve call with that error (its listener registration and its count are released), and
-    any other error is logged and the loop continues (nothing changes). -/
+    any other error is logged and the loop continues (nothing changes).
+
+    Linearisation point.  In the code the failing `ReadFrom` (server-packet.go:133), the atomic load of
+    `shutdownRequested` (:135), the `Temporary()` test (:139) and the `return` (:136 / :140) with its
+    deferred cleanup are separate instructions; here they are ONE step, whose linearisation point is the
+    atomic load at :135 — the value of `s.sd` in the state the step is taken in is the value that load
+    returns.  A Shutdown whose CompareAndSwap comes after that load is ordered after the whole step: the
+    Serve call then returns the read error (or retries) although, in wall-clock terms, Shutdown may already
+    have started when Serve returns.  "Every running Serve call returns ErrServerShutdown once Shutdown
+    has been requested" is proved — and true of the code — for reads that fail after the CompareAndSwap;
+    the deferred cleanup touches `listeners` under `s.mu` and `activeCount` atomically, so running it in
+    the same step hides no interleaving that the invariants could see (`InvF_serveLeave`). -/
 theorem read_failure (H : Hash) (cfg : Cfg) (s : St) (i : Nat) (k : ReadErrKind)
     (hi : s.serves[i]? = some .running) :
     ∃ s', step H cfg s (.serveReadFail i k) = some s' ∧
@@ -167,7 +188,11 @@ theorem progress_enabled (H : Hash) (cfg : Cfg) (hv : cfg.variant = .fixed) (con
 
 /-- (a2) No enabled step undoes progress: from a reachable state in which Shutdown has been requested,
     EVERY enabled step (whatever its label — `serveRecv` is not enabled at all, the conns of the running
-    Serve calls are closed) keeps shutdown requested and does not increase the measure; steps with a
+    Serve calls are closed; this is a statement about the coarse label, which includes `ReadFrom` returning
+    a datagram: in the code a Serve call whose `ReadFrom` returned BEFORE Shutdown still does its
+    `activeAdd` and `go` afterwards — see `fine_no_step_increases`, where `serveSpawn` is enabled after
+    Shutdown and is a drain step, and `spawn_after_shutdown_is_counted` for why that is safe)
+    keeps shutdown requested and does not increase the measure; steps with a
     drain label decrease it strictly, all other steps (a Serve call arriving late, a handler writing a
     reply, Shutdown calls entering / returning, a caller's context ending) leave it unchanged. -/
 theorem no_step_increases (H : Hash) (cfg : Cfg) (hv : cfg.variant = .fixed) (conns : List Nat) (nD : Nat)
@@ -277,15 +302,15 @@ example :
       [.serveEnter 0, .serveRecv 0 0 ([1, 7, 0, 20] ++ zeros 16), .serveRecv 0 0 ([1, 7, 0, 20] ++ zeros 16),
        .taskRun 0, .downEnter 0]
     s.sd = true ∧ s.closes = 0 ∧ measure s = 4 := by
-  simp only [reach, run, step, classify_example]
+  simp only [reach, run, step, spawn, classify_example]
   decide
 
 example :
     let s := reach (fun _ => zeros 16) { secretOf := fun _ => .secret [1] } [0] 1
       [.serveEnter 0, .serveRecv 0 0 ([1, 7, 0, 20] ++ zeros 16), .serveRecv 0 0 ([1, 7, 0, 20] ++ zeros 16),
-       .taskRun 0, .downEnter 0, .serveReadErr 0, .taskFinish 0, .taskReply 0, .taskRun 1, .taskFinish 1]
+       .taskRun 0, .downEnter 0, .serveReadErr 0, .taskFinish 0, .taskReply 0 2 [], .taskRun 1, .taskFinish 1]
     s.closes = 1 ∧ measure s = 0 := by
-  simp only [reach, run, step, classify_example]
+  simp only [reach, run, step, spawn, classify_example]
   decide
 
 /-- Non-vacuity of `drained_shutdown_returns`: drained, one Shutdown waiting, one not yet called. -/
@@ -294,6 +319,542 @@ example :
       [.serveEnter 0, .downEnter 0, .serveReadErr 0]
     s.closes = 1 ∧ s.downs[0]? = some ⟨.waiting, false⟩ ∧ s.downs[1]? = some ⟨.notStarted, false⟩ := by
   decide
+
+/-! ### Progress does not depend on the environment (second audit, item 2)
+
+  `isDrainLabel` contains the environment's `serveReadFail`, so `progress_enabled`, `every_schedule_drains`
+  and `no_stuck_state` would stay true of a Shutdown that forgot `listener.Close()` (Serve blocked in
+  `ReadFrom` for ever) as long as the environment is kind enough to fail the read.  The theorems of this
+  section use `isOwnDrainLabel` = {`serveReadErr` (the read fails BECAUSE the conn was closed), `taskRun`,
+  `taskFinish`} only. -/
+
+/-- Shutdown unblocks every Serve call: in every reachable state in which Shutdown has been requested,
+    the conn of every Serve call that is in its read loop HAS been closed (by Shutdown's
+    `listener.Close()` loop — nothing else closes conns in the model), so its blocked `ReadFrom` fails:
+    the step `serveReadErr i` is enabled and makes the call return ErrServerShutdown.  No cooperation of
+    the environment (`serveReadFail`) is needed. -/
+theorem shutdown_unblocks_every_serve (H : Hash) (cfg : Cfg) (hv : cfg.variant = .fixed) (conns : List Nat) (nD : Nat)
+    (ls : List Label) (i : Nat) (hsd : (reach H cfg conns nD ls).sd = true)
+    (hi : (reach H cfg conns nD ls).serves[i]? = some .running) :
+    (reach H cfg conns nD ls).connClosed.getD ((reach H cfg conns nD ls).connOf.getD i 0) 0 ≥ 1 ∧
+    ∃ s', step H cfg (reach H cfg conns nD ls) (.serveReadErr i) = some s' ∧
+      s'.serves[i]? = some (.returned .errShutdown) := by
+  have hI := InvF_run H cfg hv conns nD ls
+  simp only [reach] at *
+  have hlp : (run H cfg (initWith conns nD) ls).listeners.getD ((run H cfg (initWith conns nD) ls).connOf.getD i 0) 0 > 0 := by
+    rw [hI.cnt]; exact runOnL_pos hi
+  have hcc := (hI.sdc hsd).2 _ hlp
+  obtain ⟨s', hs'⟩ := serveReadErr_enabled (H := H) (cfg := cfg) hi hcc hsd
+  refine ⟨hcc, s', hs', ?_⟩
+  obtain ⟨_, _, _, rfl⟩ := step_serveReadErr hs'
+  simp [lt_of_getElem?_eq_some hi]
+
+/-- `progress_enabled` with the server's own steps only: not drained ⇒ one of `serveReadErr`, `taskRun`,
+    `taskFinish` is enabled and strictly decreases the measure. -/
+theorem progress_enabled_without_environment_faults (H : Hash) (cfg : Cfg) (hv : cfg.variant = .fixed)
+    (conns : List Nat) (nD : Nat) (ls : List Label) (hsd : (reach H cfg conns nD ls).sd = true)
+    (hnd : (reach H cfg conns nD ls).closes = 0) :
+    ∃ l s', isOwnDrainLabel l = true ∧ step H cfg (reach H cfg conns nD ls) l = some s' ∧
+      measure s' < measure (reach H cfg conns nD ls) := by
+  have hI := InvF_run H cfg hv conns nD ls
+  simp only [reach] at *
+  have hm : countedServes (run H cfg (initWith conns nD) ls) + liveTasks (run H cfg (initWith conns nD) ls) ≠ 0 := by
+    intro h0
+    have := hI.cl2.mpr ⟨hsd, by omega, by omega⟩
+    omega
+  obtain ⟨l, s', hl, hs, _, hlt⟩ := own_drain_label_enabled (H := H) (cfg := cfg) hI hsd hm
+  exact ⟨l, s', hl, hs, hlt⟩
+
+/-- `every_schedule_drains` with the server's own steps only: the number of enabled `serveReadErr` /
+    `taskRun` / `taskFinish` steps of a continuation plus the measure afterwards is at most the measure
+    before; a continuation at whose end none of THESE steps is enabled (whatever the environment could
+    still do), or that takes measure-many of them, ends with `lastActive` closed. -/
+theorem every_schedule_drains_without_environment_faults (H : Hash) (cfg : Cfg) (hv : cfg.variant = .fixed)
+    (conns : List Nat) (nD : Nat) (ls ls' : List Label) (hsd : (reach H cfg conns nD ls).sd = true) :
+    let s := reach H cfg conns nD ls
+    let s' := reach H cfg conns nD (ls ++ ls')
+    s'.sd = true ∧
+    ownDrainSteps H cfg s ls' + measure s' ≤ measure s ∧
+    ((∀ l, isOwnDrainLabel l = true → step H cfg s' l = none) → s'.closes = 1) ∧
+    (measure s ≤ ownDrainSteps H cfg s ls' → s'.closes = 1) := by
+  have hI := InvF_run H cfg hv conns nD ls
+  have hI' := InvF_run H cfg hv conns nD (ls ++ ls')
+  obtain ⟨h1, h2⟩ := drain_bound H cfg hv ls' _ hI hsd
+  have h3 := ownDrainSteps_le H cfg ls' (run H cfg (initWith conns nD) ls)
+  simp only [reach, run_append]
+  refine ⟨h1, by simp only [measure]; omega, ?_, ?_⟩
+  · intro hmax
+    rw [← run_append]
+    by_cases hm : countedServes (run H cfg (initWith conns nD) (ls ++ ls')) +
+        liveTasks (run H cfg (initWith conns nD) (ls ++ ls')) = 0
+    · exact hI'.cl2.mpr ⟨by rw [run_append]; exact h1, by omega, by omega⟩
+    · obtain ⟨l, s'', hl, hs, _⟩ := own_drain_label_enabled (H := H) (cfg := cfg) hI' (by rw [run_append]; exact h1) hm
+      rw [run_append] at hs
+      rw [hmax l hl] at hs; cases hs
+  · intro hge
+    have h0 : drainMeasure (run H cfg (run H cfg (initWith conns nD) ls) ls') = 0 := by
+      simp only [measure] at hge; omega
+    rw [← run_append] at h0 h1 ⊢
+    simp only [drainMeasure] at h0
+    exact hI'.cl2.mpr ⟨h1, by omega, by omega⟩
+
+/-- `no_stuck_state` with a witness made of the server's own steps only: the draining continuation
+    consists of `serveReadErr`, `taskRun`, `taskFinish` steps (handlers returning is the only thing asked
+    of the user's code; nothing is asked of the network). -/
+theorem no_stuck_state_without_environment_faults (H : Hash) (cfg : Cfg) (hv : cfg.variant = .fixed)
+    (conns : List Nat) (nD : Nat) (ls : List Label) (hsd : (reach H cfg conns nD ls).sd = true) :
+    ∃ ls', (∀ l ∈ ls', isOwnDrainLabel l = true) ∧
+      let s' := reach H cfg conns nD (ls ++ ls')
+      (∀ pc ∈ s'.serves, terminalServe pc = true) ∧ (∀ t ∈ s'.tasks, t.pc = .done) ∧ s'.closes = 1 ∧
+      ∀ j c, s'.downs[j]? = some ⟨.waiting, c⟩ → (step H cfg s' (.downReturnNil j)).isSome = true := by
+  have hI := InvF_run H cfg hv conns nD ls
+  obtain ⟨ls', hown, hsd', h1, h2⟩ :=
+    drain_own (H := H) hv (drainMeasure (reach H cfg conns nD ls)) _ hI hsd (Nat.le_refl _)
+  refine ⟨ls', hown, ?_⟩
+  have hI' := InvF_run_from H cfg hv ls' _ hI
+  unfold reach
+  rw [run_append]
+  have hd := Drained_of_counts hI' hsd' h1 h2
+  have hc : (run H cfg (run H cfg (initWith conns nD) ls) ls').closes = 1 := hI'.cl2.mpr ⟨hsd', h1, h2⟩
+  have hte : terminalServe = terminalS := by funext pc; cases pc <;> rfl
+  rw [hte]
+  refine ⟨hd.serves, hd.tasks, hc, ?_⟩
+  intro j c hj
+  simp only [step, hj, hc]
+  rfl
+
+/-- Non-vacuity of `shutdown_unblocks_every_serve`: Shutdown requested while a Serve call reads. -/
+example :
+    let s := reach (fun _ => []) { secretOf := fun _ => .error } [0] 1 [.serveEnter 0, .downEnter 0]
+    s.sd = true ∧ s.serves[0]? = some .running ∧ s.connClosed = [1] := by
+  decide
+
+/-! ### The read loop at the granularity of the code (second audit, item 1): machine RV.Model.Server2
+
+  Route taken: a REFINEMENT LAYER.  `Server2` has `serveRead i peer d` (`ReadFrom` returned a datagram; the
+  Serve call holds it) and `serveSpawn i` (`activeAdd` + `go`) as separate labels, so that a Shutdown — or
+  any other step — can fall between them; all other steps are those of the coarse machine.  The coarse
+  machine is the fine one restricted to schedules in which the pair is adjacent
+  (`coarse_is_fine_with_adjacent_pairs`); the safety invariants and the progress theorems are proved
+  DIRECTLY for every schedule of the fine machine (`fine_…`), the theorem that carries the argument is
+  `spawn_after_shutdown_is_counted`, and two variant machines show that it is needed. -/
+
+/-- states reachable in the fine machine (variant of `cfg`; `.fixed` = the tree) -/
+def reach2 (H : Hash) (cfg : Cfg) (conns : List Nat) (nD : Nat) (ls : List Label2) : St2 :=
+  run2 H cfg (initWith2 conns nD) ls
+
+/-- Refinement: a schedule of the coarse machine, with every `serveRecv` replaced by the adjacent pair
+    `serveRead`, `serveSpawn`, drives the fine machine to the same state with no datagram held.  So every
+    state reachable in the coarse machine is reachable in the fine one, and every `fine_…` theorem below
+    specialises to the coarse machine. -/
+theorem coarse_is_fine_with_adjacent_pairs (H : Hash) (cfg : Cfg) (conns : List Nat) (nD : Nat) (ls : List Label) :
+    reach2 H cfg conns nD (refine ls) =
+      { base := reach H cfg conns nD ls, held := List.replicate conns.length none } := by
+  have := refine_run H cfg ls (initWith conns nD)
+  simp only [reach, reach2, initWith2]
+  have hl : (initWith conns nD).serves.length = conns.length := by simp [initWith]
+  rw [hl] at this
+  exact this
+
+/-- Simulation, for ALL schedules of the fine machine in which every `serveRead` is immediately followed by
+    the `serveSpawn` of the same Serve call (`PairsAdjacent`): the fine machine reaches exactly the state
+    the coarse machine reaches under the coarsened schedule (each pair read as one `serveRecv`), with no
+    datagram held.  The coarse machine is the fine machine restricted to these schedules; what the fine
+    machine adds is precisely the schedules in which something falls between a read and its spawn. -/
+theorem fine_with_adjacent_pairs_is_coarse (H : Hash) (cfg : Cfg) (conns : List Nat) (nD : Nat) (ls : List Label2)
+    (hadj : PairsAdjacent ls) :
+    reach2 H cfg conns nD ls =
+      { base := reach H cfg conns nD (coarsen ls), held := List.replicate conns.length none } := by
+  have := adjacent_run H cfg hadj (initWith conns nD)
+  simp only [reach, reach2, initWith2]
+  have hl : (initWith conns nD).serves.length = conns.length := by simp [initWith]
+  rw [hl] at this
+  exact this
+
+/-- THE ARGUMENT.  In every reachable state of the fine machine, a Serve call that holds a
+    read-but-not-yet-spawned datagram is itself in its read loop and therefore counted in `activeCount`
+    (it counted itself under `s.mu` when it registered and gives the count back only in its deferred
+    cleanup, after the loop); hence `activeCount` has not reached -1: `lastActive` is not closed, no
+    Shutdown call has returned nil — and its `serveSpawn` step is enabled, whether or not Shutdown has
+    been requested and its conn closed in the meantime, so the late `activeAdd` happens while the count
+    is still ≥ 0 (≥ 1 before Shutdown). -/
+theorem spawn_after_shutdown_is_counted (H : Hash) (cfg : Cfg) (hv : cfg.variant = .fixed) (conns : List Nat) (nD : Nat)
+    (ls : List Label2) (i : Nat) (x : Nat × Bytes) (hh : (reach2 H cfg conns nD ls).holds i = some x) :
+    let s := reach2 H cfg conns nD ls
+    s.base.serves[i]? = some .running ∧ countedServes s.base ≥ 1 ∧
+    s.base.active ≥ (if s.base.sd then 0 else 1) ∧ s.base.closes = 0 ∧
+    (∀ (j : Nat) (c : Bool), s.base.downs[j]? ≠ some (⟨.returned .nil, c⟩ : Down)) ∧
+    step2 H cfg s (.serveSpawn i) =
+      some { base := spawn H cfg s.base i x.1 x.2, held := s.held.set i none } := by
+  have h2 := Inv2_run H cfg conns nD ls
+  have hI := InvF_run2 H cfg hv conns nD ls
+  obtain ⟨a, b, c, d, e⟩ := held_is_counted h2 hI hh
+  exact ⟨a, b, c, d, e, serveSpawn_enabled hh⟩
+
+/-- the accounting invariant, for every schedule of the fine machine -/
+theorem fine_active_invariant (H : Hash) (cfg : Cfg) (hv : cfg.variant = .fixed) (conns : List Nat) (nD : Nat)
+    (ls : List Label2) :
+    let s := (reach2 H cfg conns nD ls).base
+    s.active = (countedServes s : Int) + (liveTasks s : Int) - (if s.sd then 1 else 0) :=
+  (InvF_run2 H cfg hv conns nD ls).act
+
+/-- no panic in the fine machine -/
+theorem fine_closes_le_one (H : Hash) (cfg : Cfg) (hv : cfg.variant = .fixed) (conns : List Nat) (nD : Nat)
+    (ls : List Label2) :
+    (reach2 H cfg conns nD ls).base.closes ≤ 1 ∧ (reach2 H cfg conns nD ls).base.panicked = false := by
+  have h := (InvF_run2 H cfg hv conns nD ls).cl1
+  refine ⟨h, ?_⟩
+  simp only [St.panicked, decide_eq_false_iff_not]
+  unfold reach2
+  omega
+
+theorem fine_closed_iff_drained (H : Hash) (cfg : Cfg) (hv : cfg.variant = .fixed) (conns : List Nat) (nD : Nat)
+    (ls : List Label2) :
+    let s := (reach2 H cfg conns nD ls).base
+    s.closes = 1 ↔ (s.sd = true ∧ countedServes s = 0 ∧ liveTasks s = 0) :=
+  (InvF_run2 H cfg hv conns nD ls).cl2
+
+/-- nil only after everything has drained — and then no Serve call holds a datagram either -/
+theorem fine_nil_after_drain (H : Hash) (cfg : Cfg) (hv : cfg.variant = .fixed) (conns : List Nat) (nD : Nat)
+    (ls : List Label2) (j : Nat) (c : Bool)
+    (h : (reach2 H cfg conns nD ls).base.downs[j]? = some ⟨.returned .nil, c⟩) :
+    (∀ pc ∈ (reach2 H cfg conns nD ls).base.serves, terminalServe pc = true) ∧
+    (∀ t ∈ (reach2 H cfg conns nD ls).base.tasks, t.pc = .done) ∧
+    (∀ i, (reach2 H cfg conns nD ls).holds i = none) := by
+  have hI := InvF_run2 H cfg hv conns nD ls
+  have h2 := Inv2_run H cfg conns nD ls
+  have hd := Drained2_of_closed h2 hI (hI.nil j c h)
+  have hte : terminalServe = terminalS := by funext pc; cases pc <;> rfl
+  rw [hte]
+  exact ⟨hd.base.serves, hd.base.tasks, hd.held⟩
+
+/-- … and after a nil return no handler ever starts, in the fine machine: in particular no `serveSpawn`
+    is left over from a read that came before Shutdown. -/
+theorem fine_no_handler_after_nil (H : Hash) (cfg : Cfg) (hv : cfg.variant = .fixed) (conns : List Nat) (nD : Nat)
+    (ls ls' : List Label2) (j : Nat) (c : Bool)
+    (h : (reach2 H cfg conns nD ls).base.downs[j]? = some ⟨.returned .nil, c⟩) :
+    ((reach2 H cfg conns nD (ls ++ ls')).base.log.filter isHandlerStart) =
+      ((reach2 H cfg conns nD ls).base.log.filter isHandlerStart) ∧
+    (reach2 H cfg conns nD (ls ++ ls')).base.tasks.length = (reach2 H cfg conns nD ls).base.tasks.length := by
+  have hI := InvF_run2 H cfg hv conns nD ls
+  have h2 := Inv2_run H cfg conns nD ls
+  have hd := Drained2_of_closed h2 hI (hI.nil j c h)
+  have hhe : isHandlerStart = isHS := by funext e; cases e <;> rfl
+  rw [hhe]
+  unfold reach2
+  rw [run2_append]
+  obtain ⟨hd', hl⟩ := Drained2_run H cfg ls' _ hd
+  exact ⟨hl, Drained2_run_tasks H cfg ls' _ hd⟩
+
+theorem fine_ctx_error_only_if_ctx_done (H : Hash) (cfg : Cfg) (conns : List Nat) (nD : Nat) (ls : List Label2)
+    (j : Nat) (c : Bool) (h : (reach2 H cfg conns nD ls).base.downs[j]? = some ⟨.returned .ctxErr, c⟩) : c = true :=
+  (InvG_run2 H cfg conns nD ls).ctx j c h
+
+theorem fine_shutdown_closes_listeners (H : Hash) (cfg : Cfg) (hv : cfg.variant = .fixed) (conns : List Nat) (nD : Nat)
+    (ls : List Label2) (h : (reach2 H cfg conns nD ls).base.sd = true) :
+    (reach2 H cfg conns nD ls).base.ctxCancelled = true ∧
+    ∀ c, (reach2 H cfg conns nD ls).base.listeners.getD c 0 > 0 →
+      (reach2 H cfg conns nD ls).base.connClosed.getD c 0 ≥ 1 :=
+  (InvF_run2 H cfg hv conns nD ls).sdc h
+
+/-- the listener table counts the Serve calls in their read loop per conn — a call that holds a
+    datagram is one of them (`.running`) -/
+theorem fine_listeners_count (H : Hash) (cfg : Cfg) (hv : cfg.variant = .fixed) (conns : List Nat) (nD : Nat)
+    (ls : List Label2) (c : Nat) :
+    (reach2 H cfg conns nD ls).base.listeners.getD c 0 =
+      ((List.range (reach2 H cfg conns nD ls).base.serves.length).filter (fun i =>
+        (reach2 H cfg conns nD ls).base.serves[i]? == some .running &&
+        (reach2 H cfg conns nD ls).base.connOf.getD i 0 == c)).length :=
+  (InvF_run2 H cfg hv conns nD ls).cnt c
+
+
+/-! #### progress of the fine machine (drain labels: the server's own steps only) -/
+
+/-- the measure of the fine machine: the coarse measure of `base`, plus 3 for every held datagram (its
+    `serveSpawn` adds a goroutine that has not run its pipeline, which weighs 2) -/
+def fineMeasure (s : St2) : Nat := measure2 s
+
+theorem fineMeasure_eq (s : St2) : fineMeasure s = measure s.base + 3 * heldCount s := rfl
+
+/-- Shutdown unblocks every Serve call, in the fine machine: once Shutdown has been requested, the conn of a
+    Serve call in its read loop has been closed, and the call can move: if it holds a datagram its
+    `serveSpawn` is enabled (after which it holds none), otherwise its `ReadFrom` fails (`serveReadErr`)
+    and it returns ErrServerShutdown.  `serveRead` — a new datagram — is not enabled for it. -/
+theorem fine_shutdown_unblocks_every_serve (H : Hash) (cfg : Cfg) (hv : cfg.variant = .fixed) (conns : List Nat)
+    (nD : Nat) (ls : List Label2) (i : Nat) (hsd : (reach2 H cfg conns nD ls).base.sd = true)
+    (hi : (reach2 H cfg conns nD ls).base.serves[i]? = some .running) :
+    let s := reach2 H cfg conns nD ls
+    s.base.connClosed.getD (s.base.connOf.getD i 0) 0 ≥ 1 ∧
+    (∀ peer d, step2 H cfg s (.serveRead i peer d) = none) ∧
+    ((∃ x s', s.holds i = some x ∧ step2 H cfg s (.serveSpawn i) = some s' ∧ s'.holds i = none ∧
+        s'.base.serves[i]? = some .running) ∨
+     (s.holds i = none ∧ ∃ s', step2 H cfg s (.base (.serveReadErr i)) = some s' ∧
+        s'.base.serves[i]? = some (.returned .errShutdown))) := by
+  have hI := InvF_run2 H cfg hv conns nD ls
+  have h2 := Inv2_run H cfg conns nD ls
+  simp only [reach2] at *
+  have hlp : (run2 H cfg (initWith2 conns nD) ls).base.listeners.getD
+      ((run2 H cfg (initWith2 conns nD) ls).base.connOf.getD i 0) 0 > 0 := by
+    rw [hI.cnt]; exact runOnL_pos hi
+  have hcc := (hI.sdc hsd).2 _ hlp
+  refine ⟨hcc, ?_, ?_⟩
+  · intro peer d
+    rw [step2_serveRead_eq, if_neg]
+    rintro ⟨_, _, h0⟩; omega
+  · cases hh : (run2 H cfg (initWith2 conns nD) ls).holds i with
+    | some x =>
+      left
+      have hil : i < (run2 H cfg (initWith2 conns nD) ls).held.length := by
+        rw [h2.len]; exact lt_of_getElem?_eq_some hi
+      refine ⟨x, _, rfl, serveSpawn_enabled hh, ?_, hi⟩
+      rw [holds_mk_set, if_pos ⟨rfl, hil⟩]
+    | none =>
+      right
+      refine ⟨rfl, ?_⟩
+      obtain ⟨b, hb⟩ := serveReadErr_enabled (H := H) (cfg := cfg) hi hcc hsd
+      refine ⟨{ run2 H cfg (initWith2 conns nD) ls with base := b }, ?_, ?_⟩
+      · rw [step2_base_eq (by intro i' hi'; cases hi'; exact hh), hb]; rfl
+      · obtain ⟨_, _, _, rfl⟩ := step_serveReadErr hb
+        simp [lt_of_getElem?_eq_some hi]
+
+/-- No enabled step of the fine machine undoes progress once Shutdown has been requested: shutdown stays
+    requested, the measure does not grow, steps with a drain label (`serveSpawn`, and the coarse drain
+    labels) decrease it strictly, all others leave it unchanged; `serveRead` is not enabled.  Unlike the
+    coarse `no_step_increases`, this does NOT claim that no goroutine is spawned after Shutdown: a
+    `serveSpawn` for a datagram read earlier is enabled, and is progress. -/
+theorem fine_no_step_increases (H : Hash) (cfg : Cfg) (hv : cfg.variant = .fixed) (conns : List Nat) (nD : Nat)
+    (ls : List Label2) (hsd : (reach2 H cfg conns nD ls).base.sd = true) (l : Label2) (s' : St2)
+    (hs : step2 H cfg (reach2 H cfg conns nD ls) l = some s') :
+    s'.base.sd = true ∧ fineMeasure s' ≤ fineMeasure (reach2 H cfg conns nD ls) ∧
+    (isDrainLabel2 l = true → fineMeasure s' < fineMeasure (reach2 H cfg conns nD ls)) ∧
+    (isDrainLabel2 l = false → fineMeasure s' = fineMeasure (reach2 H cfg conns nD ls)) ∧
+    (∀ i peer d, l ≠ .serveRead i peer d) :=
+  step2_drain_le (Inv2_run H cfg conns nD ls) (InvF_run2 H cfg hv conns nD ls) hsd hs
+
+/-- Not drained ⇒ one of the server's OWN steps (`serveSpawn`, `serveReadErr`, `taskRun`, `taskFinish`) is
+    enabled in the fine machine and strictly decreases the measure. -/
+theorem fine_progress_enabled (H : Hash) (cfg : Cfg) (hv : cfg.variant = .fixed) (conns : List Nat) (nD : Nat)
+    (ls : List Label2) (hsd : (reach2 H cfg conns nD ls).base.sd = true)
+    (hnd : (reach2 H cfg conns nD ls).base.closes = 0) :
+    ∃ l s', isOwnDrainLabel2 l = true ∧ step2 H cfg (reach2 H cfg conns nD ls) l = some s' ∧
+      fineMeasure s' < fineMeasure (reach2 H cfg conns nD ls) := by
+  have hI := InvF_run2 H cfg hv conns nD ls
+  have h2 := Inv2_run H cfg conns nD ls
+  simp only [reach2] at *
+  have hm : countedServes (run2 H cfg (initWith2 conns nD) ls).base +
+      liveTasks (run2 H cfg (initWith2 conns nD) ls).base ≠ 0 := by
+    intro h0
+    have := hI.cl2.mpr ⟨hsd, by omega, by omega⟩
+    omega
+  obtain ⟨l, s', hl, hs, _, hlt⟩ := own_drain_label_enabled2 (H := H) (cfg := cfg) h2 hI hsd hm
+  exact ⟨l, s', hl, hs, hlt⟩
+
+/-- Every schedule of the fine machine drains within measure-many of the server's own drain steps. -/
+theorem fine_every_schedule_drains (H : Hash) (cfg : Cfg) (hv : cfg.variant = .fixed) (conns : List Nat) (nD : Nat)
+    (ls ls' : List Label2) (hsd : (reach2 H cfg conns nD ls).base.sd = true) :
+    let s := reach2 H cfg conns nD ls
+    let s' := reach2 H cfg conns nD (ls ++ ls')
+    s'.base.sd = true ∧
+    ownDrainSteps2 H cfg s ls' + fineMeasure s' ≤ fineMeasure s ∧
+    ((∀ l, isOwnDrainLabel2 l = true → step2 H cfg s' l = none) → s'.base.closes = 1) ∧
+    (fineMeasure s ≤ ownDrainSteps2 H cfg s ls' → s'.base.closes = 1) := by
+  have hI := InvF_run2 H cfg hv conns nD ls
+  have h2 := Inv2_run H cfg conns nD ls
+  have hI' := InvF_run2 H cfg hv conns nD (ls ++ ls')
+  have h2' := Inv2_run H cfg conns nD (ls ++ ls')
+  obtain ⟨h1, hb⟩ := drain2_bound H cfg hv ls' _ h2 hI hsd
+  simp only [reach2, run2_append] at *
+  refine ⟨h1, hb, ?_, ?_⟩
+  · intro hmax
+    by_cases hm : countedServes (run2 H cfg (run2 H cfg (initWith2 conns nD) ls) ls').base +
+        liveTasks (run2 H cfg (run2 H cfg (initWith2 conns nD) ls) ls').base = 0
+    · exact hI'.cl2.mpr ⟨h1, by omega, by omega⟩
+    · obtain ⟨l, s'', hl, hs, _⟩ := own_drain_label_enabled2 (H := H) (cfg := cfg) h2' hI' h1 hm
+      rw [hmax l hl] at hs; cases hs
+  · intro hge
+    have h0 : measure2 (run2 H cfg (run2 H cfg (initWith2 conns nD) ls) ls') = 0 := by
+      simp only [fineMeasure] at hge hb; omega
+    obtain ⟨a, b⟩ := measure2_zero h0
+    exact hI'.cl2.mpr ⟨h1, a, b⟩
+
+/-- Deadlock freedom of the fine machine, with a witness made of the server's own steps: from every
+    reachable state in which Shutdown has been requested — also one in which a Serve call holds a datagram
+    it read before Shutdown — the threads can all run to completion. -/
+theorem fine_no_stuck_state (H : Hash) (cfg : Cfg) (hv : cfg.variant = .fixed) (conns : List Nat) (nD : Nat)
+    (ls : List Label2) (hsd : (reach2 H cfg conns nD ls).base.sd = true) :
+    ∃ ls', (∀ l ∈ ls', isOwnDrainLabel2 l = true) ∧
+      let s' := reach2 H cfg conns nD (ls ++ ls')
+      (∀ pc ∈ s'.base.serves, terminalServe pc = true) ∧ (∀ t ∈ s'.base.tasks, t.pc = .done) ∧
+      (∀ i, s'.holds i = none) ∧ s'.base.closes = 1 ∧
+      ∀ j c, s'.base.downs[j]? = some ⟨.waiting, c⟩ →
+        (step2 H cfg s' (.base (.downReturnNil j))).isSome = true := by
+  have hI := InvF_run2 H cfg hv conns nD ls
+  have h2 := Inv2_run H cfg conns nD ls
+  obtain ⟨ls', hown, hsd', h1, h2c⟩ :=
+    drain2_own (H := H) hv (measure2 (reach2 H cfg conns nD ls)) _ h2 hI hsd (Nat.le_refl _)
+  refine ⟨ls', hown, ?_⟩
+  obtain ⟨h2', hI'⟩ := InvF_run2_from H cfg hv ls' _ h2 hI
+  unfold reach2 at *
+  rw [run2_append]
+  have hd := Drained_of_counts hI' hsd' h1 h2c
+  have hc : (run2 H cfg (run2 H cfg (initWith2 conns nD) ls) ls').base.closes = 1 := hI'.cl2.mpr ⟨hsd', h1, h2c⟩
+  have hte : terminalServe = terminalS := by funext pc; cases pc <;> rfl
+  rw [hte]
+  refine ⟨hd.serves, hd.tasks, no_held_of_drained h2' hd, hc, ?_⟩
+  intro j c hj
+  rw [step2_base_eq (by intro i hi; cases hi)]
+  simp only [step, hj, hc]
+  rfl
+
+/-- `read_failure` in the fine machine: a read of Serve call `i` can fail only while `i` is in `ReadFrom` —
+    not between `ReadFrom` and `go`, where it holds a datagram —, and then exactly as in the coarse machine
+    (same linearisation point: the atomic load of `shutdownRequested`); the held datagrams are untouched. -/
+theorem fine_read_failure (H : Hash) (cfg : Cfg) (s : St2) (i : Nat) (k : ReadErrKind)
+    (hi : s.base.serves[i]? = some .running) :
+    (∀ x, s.holds i = some x → step2 H cfg s (.base (.serveReadFail i k)) = none ∧
+        step2 H cfg s (.base (.serveReadErr i)) = none) ∧
+    (s.holds i = none →
+      ∃ s', step2 H cfg s (.base (.serveReadFail i k)) = some s' ∧ s'.held = s.held ∧
+        (s.base.sd = true → s'.base.serves[i]? = some (.returned .errShutdown)) ∧
+        (s.base.sd = false → k = .nonTemporary → s'.base.serves[i]? = some (.returned .readError) ∧
+            s'.base.listeners.getD (s.base.connOf.getD i 0) 0 = s.base.listeners.getD (s.base.connOf.getD i 0) 0 - 1) ∧
+        (s.base.sd = false → k = .other → s' = s)) := by
+  constructor
+  · intro x hx
+    simp [step2, Label.readLoopOf, hx]
+  · intro hn
+    obtain ⟨b, hb, h1, h2, h3⟩ := read_failure H cfg s.base i k hi
+    refine ⟨{ s with base := b }, ?_, rfl, h1, h2, ?_⟩
+    · rw [step2_base_eq (by intro i' hi'; cases hi'; exact hn), hb]; rfl
+    · intro hsd hk; rw [h3 hsd hk]
+
+/-- `serve_after_shutdown` in the fine machine -/
+theorem fine_serve_after_shutdown (H : Hash) (cfg : Cfg) (s : St2) (i : Nat) (hsd : s.base.sd = true)
+    (hi : s.base.serves[i]? = some .notStarted) :
+    ∃ s', step2 H cfg s (.base (.serveEnter i)) = some s' ∧ s'.base.serves[i]? = some (.returned .errShutdown) ∧
+      s'.base.listeners = s.base.listeners ∧ s'.base.active = s.base.active ∧ s'.held = s.held := by
+  obtain ⟨b, hb, h1, h2, h3⟩ := serve_after_shutdown H cfg s.base i hsd hi
+  refine ⟨{ s with base := b }, ?_, h1, h2, h3, rfl⟩
+  rw [step2_base_eq (by intro i' hi'; cases hi'), hb]; rfl
+
+/-- Once drained, the fine machine stays drained and every waiting Shutdown can return nil at once. -/
+theorem fine_drained_shutdown_returns (H : Hash) (cfg : Cfg) (hv : cfg.variant = .fixed) (conns : List Nat)
+    (nD : Nat) (ls ls' : List Label2) (hc : (reach2 H cfg conns nD ls).base.closes = 1) :
+    let s' := reach2 H cfg conns nD (ls ++ ls')
+    s'.base.closes = 1 ∧ (∀ i, s'.holds i = none) ∧
+    ∀ (j : Nat) (c : Bool), s'.base.downs[j]? = some (⟨.waiting, c⟩ : Down) →
+      ∃ s'', step2 H cfg s' (.base (.downReturnNil j)) = some s'' ∧
+        s''.base.downs[j]? = some (⟨.returned .nil, c⟩ : Down) := by
+  have hI := InvF_run2 H cfg hv conns nD ls
+  have h2 := Inv2_run H cfg conns nD ls
+  have hI' := InvF_run2 H cfg hv conns nD (ls ++ ls')
+  have hd := Drained2_of_closed h2 hI (by unfold reach2 at hc; omega)
+  have hd' := (Drained2_run H cfg ls' _ hd).1
+  obtain ⟨hc1, hc2⟩ := Drained_counts hd'.base
+  simp only [reach2, run2_append] at *
+  have hcl : (run2 H cfg (run2 H cfg (initWith2 conns nD) ls) ls').base.closes = 1 :=
+    hI'.cl2.mpr ⟨hd'.base.sd, hc1, hc2⟩
+  refine ⟨hcl, hd'.held, ?_⟩
+  intro j c hj
+  refine ⟨{ run2 H cfg (run2 H cfg (initWith2 conns nD) ls) ls' with
+      base := { (run2 H cfg (run2 H cfg (initWith2 conns nD) ls) ls').base with
+        downs := (run2 H cfg (run2 H cfg (initWith2 conns nD) ls) ls').base.downs.set j ⟨.returned .nil, c⟩,
+        log := (run2 H cfg (run2 H cfg (initWith2 conns nD) ls) ls').base.log ++ [.downReturned j .nil] } }, ?_, ?_⟩
+  · rw [step2_base_eq (by intro i hi; cases hi)]
+    simp only [step, hj, hcl]; rfl
+  · simp [lt_of_getElem?_eq_some hj]
+
+/-! #### non-vacuity and negative controls for the fine machine
+
+  One Serve call on conn 0; constant hash, secret `[1]` for every peer; the Access-Request of
+  `classify_example`.  `auditSchedule`: the Serve call registers, its `ReadFrom` returns the datagram,
+  THEN Shutdown runs (closes the conn, drops its count) and tries to return nil, then the Serve call does
+  its `activeAdd` + `go`, and the goroutine reaches the handler. -/
+
+/-- the datagram of the examples (an Access-Request, identifier 7, no attributes) -/
+def exDgram : Bytes := [1, 7, 0, 20] ++ zeros 16
+/-- the packet it parses to under the secret `[1]` -/
+def exPacket : Packet := ⟨1, 7, zeros 16, [1], []⟩
+def exCfg : Cfg := { secretOf := fun _ => .secret [1] }
+def exHash : Hash := fun _ => zeros 16
+
+/-- read — Shutdown — (nil?) — spawn — handler -/
+def auditSchedule : List Label2 :=
+  [.base (.serveEnter 0), .serveRead 0 0 exDgram, .base (.downEnter 0), .base (.downReturnNil 0),
+   .serveSpawn 0, .base (.taskRun 0)]
+
+/-- The code (the tree's variant), on the audit schedule: after the read and Shutdown the Serve call
+    holds the datagram, `shutdownRequested` is set, its conn is closed, `activeCount` is 0 (its own count)
+    and `lastActive` is open — the hypotheses of `spawn_after_shutdown_is_counted`,
+    `fine_shutdown_unblocks_every_serve`, `fine_progress_enabled` hold in a reachable state. -/
+theorem audit_schedule_state_after_shutdown :
+    let s := reach2 exHash exCfg [0] 1 (auditSchedule.take 3)
+    s.holds 0 = some (0, exDgram) ∧ s.base.sd = true ∧ s.base.connClosed = [1] ∧ s.base.active = 0 ∧
+    s.base.closes = 0 ∧ s.base.serves = [.running] ∧ fineMeasure s = 4 ∧ Cfg.variant exCfg = .fixed := by
+  decide +kernel
+
+/-- … Shutdown's nil return is NOT enabled there, the spawn after Shutdown IS (the goroutine is counted:
+    `activeCount` = 1), the handler starts, and Shutdown is still waiting. -/
+theorem audit_schedule_in_the_code :
+    let s := reach2 exHash exCfg [0] 1 auditSchedule
+    s.base.downs[0]? = some ⟨.waiting, false⟩ ∧ s.base.closes = 0 ∧ s.base.active = 1 ∧ s.holds 0 = none ∧
+    s.base.log = [.listenerClosed 0, .recv 0 0 0 exDgram, .request 0 exPacket 0 0 .server, .handlerStart 0 (0, 7)] := by
+  decide +kernel
+
+/-- … and the rest of the run: the handler returns, the read fails, `lastActive` is closed once, Shutdown
+    returns nil after the handler has finished and the Serve call has returned. -/
+theorem audit_schedule_drains :
+    let s := reach2 exHash exCfg [0] 1
+      (auditSchedule ++ [.base (.taskFinish 0), .base (.serveReadErr 0), .base (.downReturnNil 0)])
+    s.base.downs[0]? = some ⟨.returned .nil, false⟩ ∧ s.base.closes = 1 ∧ s.base.active = -1 ∧
+    s.base.log = [.listenerClosed 0, .recv 0 0 0 exDgram, .request 0 exPacket 0 0 .server, .handlerStart 0 (0, 7),
+      .handlerEnd 0, .serveReturned 0, .downReturned 0 .nil] := by
+  decide +kernel
+
+/-- NEGATIVE CONTROL 1 (`step2NoSelfCount`: the Serve call does not count itself).  On the SAME schedule
+    Shutdown's decrement takes `activeCount` from 0 to -1 while the Serve call holds the datagram:
+    Shutdown returns nil, THEN the goroutine is spawned and a handler starts. -/
+theorem without_self_count_nil_then_handler_starts :
+    let s := runWith (step2NoSelfCount exHash exCfg) (initWith2 [0] 1) auditSchedule
+    s.base.downs[0]? = some ⟨.returned .nil, false⟩ ∧
+    s.base.log = [.listenerClosed 0, .downReturned 0 .nil, .recv 0 0 0 exDgram,
+      .request 0 exPacket 0 0 .server, .handlerStart 0 (0, 7)] := by
+  decide +kernel
+
+/-- … and when that handler returns `lastActive` is closed a second time (panic). -/
+theorem without_self_count_double_close :
+    (runWith (step2NoSelfCount exHash exCfg) (initWith2 [0] 1)
+      (auditSchedule ++ [.base (.taskFinish 0)])).base.closes = 2 := by
+  decide +kernel
+
+/-- NEGATIVE CONTROL 2 (`step2LateAdd`: `activeAdd` is the goroutine's first statement instead of the Serve
+    call's last before `go`).  Read, spawn (uncounted), Shutdown, the read fails and the Serve call returns
+    — `activeCount` reaches -1 with the goroutine alive —, Shutdown returns nil, THEN the handler starts. -/
+theorem late_activeAdd_nil_then_handler_starts :
+    let s := runWith (step2LateAdd exHash exCfg) (initWith2 [0] 1)
+      [.base (.serveEnter 0), .serveRead 0 0 exDgram, .serveSpawn 0, .base (.downEnter 0),
+       .base (.serveReadErr 0), .base (.downReturnNil 0), .base (.taskRun 0)]
+    s.base.downs[0]? = some ⟨.returned .nil, false⟩ ∧
+    s.base.log = [.recv 0 0 0 exDgram, .listenerClosed 0, .serveReturned 0, .downReturned 0 .nil,
+      .request 0 exPacket 0 0 .server, .handlerStart 0 (0, 7)] := by
+  decide +kernel
+
+/-- the same schedule in the code: Shutdown's nil return is not enabled while the goroutine is alive -/
+theorem late_activeAdd_schedule_in_the_code :
+    let s := reach2 exHash exCfg [0] 1
+      [.base (.serveEnter 0), .serveRead 0 0 exDgram, .serveSpawn 0, .base (.downEnter 0),
+       .base (.serveReadErr 0), .base (.downReturnNil 0), .base (.taskRun 0)]
+    s.base.downs[0]? = some ⟨.waiting, false⟩ ∧ s.base.closes = 0 ∧ s.base.active = 0 := by
+  decide +kernel
+
+/-- `runWith (step2 …)` is `run2`: the controls differ from the code's machine in the step function only -/
+theorem runWith_step2 (H : Hash) (cfg : Cfg) (s : St2) (ls : List Label2) :
+    runWith (step2 H cfg) s ls = run2 H cfg s ls := by
+  induction ls generalizing s with
+  | nil => rfl
+  | cons l ls ih =>
+    simp only [runWith, run2]
+    split <;> exact ih _
 
 /-! ### The code as it was (variant `.current`): the window between registration and counting -/
 
@@ -323,7 +884,7 @@ example :
 example : (reach (fun _ => zeros 16) { secretOf := fun _ => .secret [1] } [0] 1
     [.serveEnter 0, .serveRecv 0 0 ([1, 7, 0, 20] ++ zeros 16), .taskRun 0, .downEnter 0, .downReturnNil 0,
      .taskFinish 0, .serveReadErr 0, .downReturnNil 0]).downs[0]? = some ⟨.returned .nil, false⟩ := by
-  simp only [reach, run, step, classify_example]
+  simp only [reach, run, step, spawn, classify_example]
   decide
 
 end RV.C07
